@@ -264,7 +264,12 @@ pub const FX_E: &str = "e_empty.mpq";
 pub const FX_F: &str = "f_v4.mpq";
 pub const FX_S: &str = "s_shared.mpq";
 pub const FX_U: &str = "u_unicode.mpq";
-pub const NFIX: u32 = 8;
+/// members stored encrypted (with and without the key adjustment FIX_KEY asks for, compressed and raw) next to a clear one
+pub const FX_X: &str = "x_encrypted.mpq";
+/// an archive carrying a valid weak signature, and the same archive with one stored byte changed after signing
+pub const FX_W: &str = "w_signed.mpq";
+pub const FX_V: &str = "v_signed_then_changed.mpq";
+pub const NFIX: u32 = 11;
 
 pub fn fixture_table() -> Vec<Fixture> {
     let s = |v: &[&str]| v.iter().map(|x| x.to_string()).collect::<Vec<_>>();
@@ -297,6 +302,9 @@ pub fn fixture_table() -> Vec<Fixture> {
             }
             n
         } },
+        Fixture { file: FX_X, listfile: true, names: s(&["enc\\plain.bin", "enc\\fixkey.bin", "enc\\raw.bin", "enc\\fixraw.dat", "clear.txt"]) },
+        Fixture { file: FX_W, listfile: true, names: s(&["signed\\a.txt", "(signature)", "signed\\b.dat"]) },
+        Fixture { file: FX_V, listfile: true, names: s(&["signed\\a.txt", "(signature)", "signed\\b.dat"]) },
     ]
 }
 
@@ -310,6 +318,8 @@ fn fixture_len(fx: &str, k: usize) -> usize {
         FX_F => [100usize, 6000, 3][k % 3],
         FX_S => [40000usize, 4000, 96, 1000, 1001, 1002, 1003][k % 7],
         FX_U => 50 + 37 * k,
+        FX_X => [5000usize, 9000, 300, 4097, 64][k % 5],
+        FX_W | FX_V => [1500usize, 72, 300][k % 3],
         _ => 0,
     }
 }
@@ -335,10 +345,27 @@ pub fn build_fixtures(dir: &Path) -> Result<(), String> {
             _ => b.version(FormatVersion::V1).default_compression(0).attributes_option(AttributesOption::None),
         };
         b = b.listfile_option(if fx.listfile { ListfileOption::Generate } else { ListfileOption::None });
+        if fx.file == FX_X || fx.file == FX_W || fx.file == FX_V {
+            b = b.default_compression(0x02);
+        }
         for (k, n) in fx.names.iter().enumerate() {
-            b = b.add_file_data(fixture_content(fx.file, k), n);
+            let data = fixture_content(fx.file, k);
+            b = match (fx.file, k) {
+                // encrypted: zlib, zlib + adjusted key, stored raw, stored raw + adjusted key (the last one spans two sectors)
+                (FX_X, 0) => b.add_file_data_with_encryption(data, n, 0x02, false, 0),
+                (FX_X, 1) => b.add_file_data_with_encryption(data, n, 0x02, true, 0),
+                (FX_X, 2) => b.add_file_data_with_encryption(data, n, 0, false, 0),
+                (FX_X, 3) => b.add_file_data_with_encryption(data, n, 0, true, 0),
+                // the place of the signature (72 plain bytes, filled in below) and a member stored as it is
+                (FX_W | FX_V, 1) => b.add_file_data_with_options(vec![0u8; 72], n, 0, false, 0),
+                (FX_W | FX_V, 2) => b.add_file_data_with_options(data, n, 0, false, 0),
+                _ => b.add_file_data(data, n),
+            };
         }
         b.build(dir.join(fx.file)).map_err(|e| format!("fixture {}: {e}", fx.file))?;
+        if fx.file == FX_W || fx.file == FX_V {
+            sign_weak(&dir.join(fx.file), if fx.file == FX_V { Some("signed\\b.dat") } else { None })?;
+        }
     }
     // non-archives
     std::fs::write(dir.join("not_an_archive.txt"), b"just text\n").map_err(|e| e.to_string())?;
@@ -349,6 +376,32 @@ pub fn build_fixtures(dir: &Path) -> Result<(), String> {
         std::fs::write(dir.join(format!("src{k}.dat")), counter_content(*len, 0x7700 + k as u32)).map_err(|e| e.to_string())?;
     }
     Ok(())
+}
+
+/// Sign the archive with the library's own weak-signature generator, over the file exactly as `Archive::verify_signature`
+/// hashes it (the way the C10 worker does); with `change_after`, one stored byte of that member is inverted afterwards.
+fn sign_weak(path: &Path, change_after: Option<&str>) -> Result<(), String> {
+    use wow_mpq::crypto::{SignatureInfo, generate_weak_signature};
+    let mut bytes = std::fs::read(path).map_err(|e| e.to_string())?;
+    let a = wow_mpq::Archive::open(path).map_err(|e| format!("signed fixture: {e}"))?;
+    let sig = a.find_file("(signature)").map_err(|e| e.to_string())?.ok_or("signed fixture: no (signature)")?;
+    if sig.compressed_size != 72 || a.archive_offset() != 0 {
+        return Err(format!("signed fixture: (signature) stored in {} bytes at archive offset {}", sig.compressed_size, a.archive_offset()));
+    }
+    let spos = sig.file_pos as usize;
+    let info = SignatureInfo::new_weak(0, a.header().archive_size as u64, spos as u64, 72, vec![]);
+    let s = generate_weak_signature(std::io::Cursor::new(&bytes), &info).map_err(|e| format!("generate_weak_signature: {e}"))?;
+    if s.len() != 72 {
+        return Err(format!("generate_weak_signature returned {} bytes", s.len()));
+    }
+    bytes[spos..spos + 72].copy_from_slice(&s);
+    if let Some(name) = change_after {
+        let f = a.find_file(name).map_err(|e| e.to_string())?.ok_or("signed fixture: member to change is missing")?;
+        let at = f.file_pos as usize + (f.compressed_size as usize) / 2;
+        bytes[at] ^= 0xFF;
+    }
+    drop(a);
+    std::fs::write(path, &bytes).map_err(|e| e.to_string())
 }
 
 pub const SRC_LENS: &[usize] = &[0, 1, 100, 5000, 70000];
